@@ -64,7 +64,7 @@ def main():
                                             "section 7); not claimed until its check is quiet on the unchanged tree")})
   man = {
       "version": 1,
-      "setup_cmd": "cd /verif/coq && sh ./configure.sh && timeout 3000 make -j16",
+      "setup_cmd": "cd /verif/coq && sh ./configure.sh && (timeout 3000 make -k -j16 || true)",
       "hooks": {
           "guard": "TENSORFLOW_LATTICE_VERIF",
           "enable": "no hooks in /repo are needed: every observation point is a public callable; checks export "
